@@ -278,7 +278,7 @@ fn check_tuple(ins: &[(&Input, Kind)], rot: usize, ev: &mut Ev) {
     }
     // coverage classes from the inputs
     let k = ins.len();
-    ev.count(&format!("cov:k={}", k.min(7)));
+    ev.count(&format!("cov:k={}", k.min(13)));
     if ins.iter().any(|(i, _)| i.model.is_empty()) {
         ev.count("cov:has-empty-stream");
     }
@@ -399,11 +399,41 @@ pub fn run(ctx: &Ctx) -> i32 {
                 }
             }
         }
+        // the same universe behind a 70-byte common prefix (longer than the 64-byte slot buffers), all k-tuples for k <= 3
+        {
+            let prefix = vec![b'P'; 70];
+            let luniv: Vec<Vec<u8>> = vec![prefix.clone(), [&prefix[..], b"a"].concat(), [&prefix[..], b"ab"].concat(), [&prefix[..], b"b"].concat()];
+            let lnsub = 1usize << luniv.len();
+            let linputs: Vec<Vec<Input>> = (0..lnsub)
+                .map(|m| (0..4).map(|var| mk_input(gen::subset(&luniv, m as u64).into_iter().enumerate().map(|(i, k)| (k, vals[(i + var + m) % 4])).collect())).collect())
+                .collect();
+            let mut g = 0usize;
+            for k in 1..=3usize {
+                for t in 0..lnsub.pow(k as u32) {
+                    g += 1;
+                    if g % n != shard {
+                        continue;
+                    }
+                    let mut x = t;
+                    let mut ins: Vec<(&Input, Kind)> = vec![];
+                    for j in 0..k {
+                        let m = x % lnsub;
+                        x /= lnsub;
+                        ins.push((&linputs[m][(j + t) % 4], KINDS[(t / 3 + j * 5) % KINDS.len()]));
+                    }
+                    let before = ev.evaluations;
+                    check_tuple(&ins, t, ev);
+                    ev.distinct_extra += ev.evaluations - before;
+                    ev.count("cov:tuples-with-70-byte-common-prefix");
+                }
+            }
+        }
         // larger k sampled
         let mut rng = Rng::new(ctx.seed, 0xC05 + shard as u64);
         let nsamp = ctx.tier.pick(20_000, 400_000) / n;
         for t in 0..nsamp {
-            let k = kmax_full + 1 + rng.usize(if quick { 3 } else { 4 });
+            // up to 13 streams (the heap and the per-stream slots have no reason to care, so neither should the result)
+            let k = kmax_full + 1 + rng.usize(if quick { 8 } else { 10 });
             let mut ins: Vec<(&Input, Kind)> = vec![];
             for _ in 0..k {
                 ins.push((&inputs[rng.usize(nsub)][rng.usize(4)], *rng.pick(&KINDS)));
@@ -457,7 +487,7 @@ pub fn run(ctx: &Ctx) -> i32 {
         ev,
         Spec {
             level: "exploration",
-            rule: "one evaluation = one (tuple of input streams, operation) run through raw::/map::/set::OpBuilder (add, push, from_iter, and Extend on builders that already hold streams, in rotation) and compared with the set-theoretic definition: emitted keys, ascending order, exactly-once, and per key the sorted multiset of (stream index, value) entries (difference: only (0, v0)); inputs: ALL k-tuples of subsets of a 4-string universe for k<=5 (quick) / 6-string universe for k<=3 (thorough), sampled k up to 6/8, stream kinds rotated over {whole FST, range() stream, range cutting an extra key, search(AlwaysMatch), search(Complement(Str)) cutting an extra key, user Streamer over a Vec}, the same FST twice, values chosen so equal keys carry equal and differing values, random maps up to 10^3 (quick) / 10^5 (thorough) keys; plus is_disjoint/is_subset/is_superset on all ordered pairs of subsets with FST, range and user-stream arguments; non-trivial = every (tuple, op); distinct = by construction for the exhaustive part, by fingerprint for the sampled part",
+            rule: "one evaluation = one (tuple of input streams, operation) run through raw::/map::/set::OpBuilder (add, push, from_iter, and Extend on builders that already hold streams, in rotation) and compared with the set-theoretic definition: emitted keys, ascending order, exactly-once, and per key the sorted multiset of (stream index, value) entries (difference: only (0, v0)); inputs: ALL k-tuples of subsets of a 4-string universe for k<=5 (quick) / 6-string universe for k<=3 (thorough), all k<=3 tuples again behind a 70-byte common key prefix, sampled k up to 13, stream kinds rotated over {whole FST, range() stream, range cutting an extra key, search(AlwaysMatch), search(Complement(Str)) cutting an extra key, user Streamer over a Vec}, the same FST twice, values chosen so equal keys carry equal and differing values, random maps up to 10^3 (quick) / 10^5 (thorough) keys; plus is_disjoint/is_subset/is_superset on all ordered pairs of subsets with FST, range and user-stream arguments; non-trivial = every (tuple, op); distinct = by construction for the exhaustive part, by fingerprint for the sampled part",
             assumptions: vec!["order among IndexedValue entries of one key is unspecified (heap order) and therefore compared as a sorted multiset".into(), "zero-stream difference/intersection are outside the statement and not judged".into()],
             floors: vec![
                 ("cov:has-empty-stream", 100),
@@ -470,6 +500,9 @@ pub fn run(ctx: &Ctx) -> i32 {
                 ("cov:kind=SearchCut", 100),
                 ("relation-pairs", 256),
                 ("cov:extend-on-non-empty-builder", 100),
+                ("cov:tuples-with-70-byte-common-prefix", 1000),
+                ("cov:k=9", 100),
+                ("cov:k=12", 100),
             ],
             exhaustive: Some(false),
         },
